@@ -57,6 +57,9 @@ structure AddArgs where
 
 inductive Op where
   | add (a : AddArgs)
+  /-- `add` with an object that is no sink, or with an unknown keyword argument: `TypeError` before any other
+  argument is looked at (the id is already taken) -/
+  | addBad
   | remove (id : Int)
   | removeAll
   | removeBad
@@ -67,6 +70,13 @@ inductive Op where
   | configure (handlers : Option (List AddArgs)) (levels : List (Str × NoArg × Bool))
       (activation : List (Option Str × Bool))
   | log (level : LevelArg) (module : Option Str) (lazy : Bool)
+  /-- a log call OVERLAPPED by one complete `enable(name)` / `disable(name)` of another thread, run at a fixed
+  point of the lock-free reader `_log`: `early = true` – before the reader looks at `core.enabled` (when it
+  reads `core.min_level`); `early = false` – right after the reader has fetched the rules
+  (`core.activation_list` / `core.activation_none`) on a cache miss.  When the reader never reaches that
+  point (empty registry, invalid level, short-circuit, cache hit) the change runs after the call returned. -/
+  | logDuring (level : LevelArg) (module : Option Str) (lazy : Bool) (early : Bool)
+      (name : Option Str) (status : Bool)
   deriving Repr
 
 inductive Out where
